@@ -42,6 +42,11 @@ M = [
     ('gather-no-retain', 'streamz/dask.py', "        self._retain_refs(metadata)\n        result = yield client.gather(x, asynchronous=True)", "        result = yield client.gather(x, asynchronous=True)", ['C20', 'C04']),
     ('map-async-release-on-failure', 'streamz/core.py', "                if results:\n                    await asyncio.gather(*results)\n                self._release_refs(metadata)", "                if results:\n                    await asyncio.gather(*results)\n            self._release_refs(metadata)", ['C04']),
     ('slice-drops-awaitables', 'streamz/core.py', "            result = self._emit(x, metadata=metadata)\n        else:\n            result = None", "            self._emit(x, metadata=metadata)\n            result = None\n        else:\n            result = None", ['C03', 'C16']),
+    ('df-diff-iloc-offbyone', 'streamz/dataframe/aggregations.py', "        n = sum(map(len, dfs)) - window\n", "        n = sum(map(len, dfs)) - window - 1\n", ['C07']),
+    ('df-diff-loc-no-ns', 'streamz/dataframe/aggregations.py', "        mn = mx - pd.Timedelta(window) + pd.Timedelta('1ns')\n", "        mn = mx - pd.Timedelta(window)\n", ['C07']),
+    ('df-mean-on-old-count', 'streamz/dataframe/aggregations.py', "            totals = totals - old.sum()\n            counts = counts - old.count()\n        return (totals, counts), self._mean(totals, counts)", "            totals = totals - old.sum()\n            counts = counts - len(old)\n        return (totals, counts), self._mean(totals, counts)", ['C07']),
+    ('df-cumulative-no-ffill', 'streamz/dataframe/core.py', "    new_state = result.ffill().iloc[-1:]\n", "    new_state = result.iloc[-1:]\n", ['C11']),
+    ('df-cumulative-drops-first', 'streamz/dataframe/core.py', "    if len(state):\n        result = result[1:]\n    return new_state, result", "    result = result[1:]\n    return new_state, result", ['C11']),
     ('zip-maxsize-off', 'streamz/core.py', "        elif len(L) > self.maxsize:", "        elif len(L) > self.maxsize + 1:", ['C03']),
 ]
 
